@@ -42,7 +42,8 @@ int main() {
         fs::create_directories(root);
         auto pathOf = [&](int64_t n) { return root + "/f" + std::to_string(n); };
         File theFile;                 // one File object for the whole case: re-opened with open()
-        File *f = nullptr;            // &theFile while it is open
+        File *dyn = nullptr;          // a File constructed with (path, mode); closed explicitly or by its destructor
+        File *f = nullptr;            // the open File (&theFile or dyn)
         int64_t curName = -1;
         int curMode = 0;
         bool sequential = true;
@@ -67,13 +68,21 @@ int main() {
                 bool existed = fs::exists(p), isDir = fs::is_directory(p);
                 std::string old = existed && !isDir ? slurp(p) : "";
                 try {
-                    theFile.open(Path(p), static_cast<File::Mode>(l[2]));
-                    bool opened = theFile.isOpen();
-                    out.push_back(opened ? 0 : -1);
-                    if (opened) {
-                        f = &theFile; curName = l[1]; curMode = (int) l[2]; sequential = true; written.clear();
-                        before = (curMode == 5 || curMode == 6) ? old : "";
+                    // three ways to get an open File: re-open the long-lived object, or construct a new one from a Path / a string
+                    File *obj = &theFile;
+                    auto mode = static_cast<File::Mode>(l[2]);
+                    switch ((li + (size_t) l[1]) % 3) {
+                    case 0: theFile.open(Path(p), mode); break;
+                    case 1: obj = dyn = new File(Path(p), mode); break;
+                    default: obj = dyn = new File(p, mode); break;
                     }
+                    bool opened = obj->isOpen();
+                    out.push_back(opened ? 0 : -1);
+                    if (opened && obj->getMode() != mode) oracle_fail("C17: getMode() does not report the mode the file was opened with");
+                    if (opened) {
+                        f = obj; curName = l[1]; curMode = (int) l[2]; sequential = true; written.clear();
+                        before = (curMode == 5 || curMode == 6) ? old : "";
+                    } else if (dyn) { delete dyn; dyn = nullptr; }
                     if (!existed && l[2] <= 2) oracle_fail("C17: opening a missing file for reading did not fail with NotFound");
                     if (isDir) oracle_fail("C17: opening a directory did not fail with NotFile");
                 } catch (const tulz::Exception &e) {
@@ -85,7 +94,9 @@ int main() {
             }
             case 2: {
                 if (l.size() != 1 || !f) { ok = false; break; }
-                f->close(); f = nullptr; out.push_back(0);
+                if (f == dyn) { if (li % 2) dyn->close(); delete dyn; dyn = nullptr; }   // the destructor closes (and flushes) too
+                else f->close();
+                f = nullptr; out.push_back(0);
                 if (curMode >= 3 && sequential && slurp(pathOf(curName)) != before + written)
                     oracle_fail("C17: after a sequential " + std::string(curMode >= 5 ? "append" : "write") +
                                 " session the file does not hold " + (curMode >= 5 ? "old + written" : "exactly the written") + " bytes");
@@ -135,7 +146,9 @@ int main() {
             }
             if (!ok) emit({PRE}); else emit(out);
         }
-        if (f) { f->close(); f = nullptr; }
+        if (f && f != dyn) f->close();
+        delete dyn;
+        f = dyn = nullptr;
         fs::remove_all(root);
     }, 60, 32);
 }
